@@ -113,4 +113,4 @@ struct case_budget chk_budget(const char *tier)
         return b;
 }
 void chk_run_case(uint64_t seed, long c, bool is_sweep) { (void)seed; ARG_NOTE[0] = 0; if (is_sweep) sweep_case(c); else random_case(); }
-int main(int argc, char **argv) { MY_PROP = "C05"; PROG_NAME = "chk_C05"; return verif_main(argc, argv); }
+int main(int argc, char **argv) { CANARY_PROP = "C05"; MY_PROP = "C05"; PROG_NAME = "chk_C05"; return verif_main(argc, argv); }
